@@ -21,7 +21,16 @@ corr():        model <-> implementation: the Lean model (KawinV.SaveLoad with th
                received under each name compared with what the caller supplied, and the Lean model of the forwarding line
                (KawinV.Forward, rows of the generated table) run on the same calls; (b) untrained and partially trained
                MulticomponentSurrogate of Al-Mg-Si (5 precipitate phases), every phase, exact equality; trained surrogates at
-               their training points; surrogates rebuilt from their JSON file."""
+               their training points; surrogates rebuilt from their JSON file.
+               SAVE/LOAD HISTORIES in one process (check_histories): random sequences of solve / save / load on 2-3 REUSED file
+               names (with and without the .npz suffix), several live models (the original and every loaded one, solved further and
+               saved again); after every load the loaded model = deep snapshot of the saved model at the LAST save to that name;
+               the Lean file-store model (KawinV.SaveLoad.Proc / step / loadOutcomes) run on the same histories.
+               SURROGATE TRAINING (check_surrogate_training): grids with closely spaced points in raw units (every stored training
+               value reproduced at every stored training point; node count of the fitted interpolator = number of distinct stored
+               points), all training orders x getter calls x toJson/fromJson (rebuilt = original at and between the training
+               points; prediction of Q = that of a surrogate on which only Q was trained), and the Lean model of the fitting
+               state (KawinV.SurrogateFit) on the same histories."""
 import contextlib, copy, inspect, io, json, math, os, re, shutil, tempfile, traceback, warnings
 import numpy as np
 import vlib
@@ -29,18 +38,20 @@ from vlib import Result, enc_list, f2b, b2f, Toks, close
 
 PROP = 'C20'
 META = {
-    'level_text': 'Lean 4 theorems about an executable model of the save/load layers (npz archive = identity on float arrays, load error on a saved None; toDict/fromDict = tables of (key, slot, optional) lines; JSON = ndarray.tolist / np.array) whose tables are EXTRACTED from the running code on every run: key coverage (every key read is written into the same slot; the 16 histories, per-phase PBM data / PSD / bounds / sizes / aspect-ratio table, diffusion t, x and recorded arrays are written and read) by `decide` over the generated tables; round trip load(save s) = ok s\' with every observable equal for every state, any number of distinct phase names and any array contents (keys of different phases cannot collide: prefix-freeness of the generated key prefixes); a diffusion file loads whatever the recording options (after the repair in known_findings.txt; the unrepaired table is proved to fail); the recorded size-distribution history is proved NOT to survive (finding); every untrained surrogate getter falls through to the thermodynamics method of the same name, unchanged arguments and result (`decide` over the recorded table) and hands EVERY argument of the caller on: Python call binding of the forwarding line is modelled (KawinV.Forward: getter signature with *args/**kwargs -> forwarded call -> thermodynamics signature), `untrained_forwards_all_arguments` decides on the regenerated rows that nothing is dropped or renamed and that the canonical calls (all keywords, each keyword alone, all positional, mixed) deliver every argument under its own name, `forward_faithful_partial` / `untrained_getters_hand_on_every_keyword` prove it for EVERY call with distinct keywords whose positional arguments are for the getter own parameters (a dropped phase and the pre-e476a9c keyword-then-*args line are proved to fail on concrete calls); fromJson(toJson d) = d for well-formed arrays of any rank.',
-    'level_note': 'Trusted: Lean kernel + Mathlib (axioms propext/Classical.choice/Quot.sound). The tables are what the recording run observed on marker data for a 2-phase and a 3-phase model (data-dependent branches of toDict/fromDict other than "slot is None"/"key missing" would not be seen; none exist today); NumPy savez/load, zip compression, dtype handling, json printing/parsing of numbers (repr round trip) are trusted and only compared on this run\'s cases. MONITORED (oracle only, SciPy RBFInterpolator): a trained surrogate reproduces its training data at the training points; a surrogate rebuilt from its file gives the same predictions. Continuing a run after a reload is outside the statement and recorded as a finding. This kawin version has no recording interval, so "recording options" are on / off / switched off / data removed.',
+    'level_text': 'Lean 4 theorems about an executable model of the save/load layers (npz archive = identity on float arrays, load error on a saved None; toDict/fromDict = tables of (key, slot, optional) lines; JSON = ndarray.tolist / np.array) whose tables are EXTRACTED from the running code on every run: key coverage (every key read is written into the same slot; the 16 histories, per-phase PBM data / PSD / bounds / sizes / aspect-ratio table, diffusion t, x and recorded arrays are written and read) by `decide` over the generated tables; round trip load(save s) = ok s\' with every observable equal for every state, any number of distinct phase names and any array contents (keys of different phases cannot collide: prefix-freeness of the generated key prefixes); a diffusion file loads whatever the recording options (after the repair in known_findings.txt; the unrepaired table is proved to fail); the recorded size-distribution history is proved NOT to survive (finding); every untrained surrogate getter falls through to the thermodynamics method of the same name, unchanged arguments and result (`decide` over the recorded table) and hands EVERY argument of the caller on: Python call binding of the forwarding line is modelled (KawinV.Forward: getter signature with *args/**kwargs -> forwarded call -> thermodynamics signature), `untrained_forwards_all_arguments` decides on the regenerated rows that nothing is dropped or renamed and that the canonical calls (all keywords, each keyword alone, all positional, mixed) deliver every argument under its own name, `forward_faithful_partial` / `untrained_getters_hand_on_every_keyword` prove it for EVERY call with distinct keywords whose positional arguments are for the getter own parameters (a dropped phase and the pre-e476a9c keyword-then-*args line are proved to fail on concrete calls); fromJson(toJson d) = d for well-formed arrays of any rank. HISTORIES: a process = live model objects + a file store (name -> contents, `npzName` = the .npz suffix rule); `files_after_history` / `load_returns_last_save` (+ `precip_`/`diff_` instances over the generated tables): for EVERY sequence of solve / save / load calls on any number of models and file names, load(f) into a fresh model returns every observable of the saved model as it was at the moment of the LAST save to f (specification `lastSaved` read off the history backwards); the variant with a read cache that save does not invalidate is proved to return the first save point (`cached_load_returns_earlier_save_point`). SURROGATE FITTING STATE (KawinV.SurrogateFit: shared kernel settings, per quantity stored data and fitted kernel = what the kernel constructor received, fixed refit order of fromJson; hooks for what `_createInput` does to the settings and what `_fit` does to the training rows, identity in the code): `rebuild_equals_original` (every history of trainings / getter calls, all quantities, any order), `prediction_independent_of_order` / `prediction_as_if_trained_alone`, `settings_const`, `fit_uses_every_training_point`, for every hook that leaves the settings alone; witnesses `flip_rebuilt_differs`, `flip_depends_on_order` (a one-axis input switches normalize off in the shared settings), `filter_drops_training_points` (absolute-tolerance filter before the fit).',
+    'level_note': 'Trusted: Lean kernel + Mathlib (axioms propext/Classical.choice/Quot.sound). The tables are what the recording run observed on marker data for a 2-phase and a 3-phase model (data-dependent branches of toDict/fromDict other than "slot is None"/"key missing" would not be seen; none exist today); NumPy savez/load, zip compression, dtype handling, json printing/parsing of numbers (repr round trip) are trusted and only compared on this run\'s cases. MONITORED (oracle only, SciPy RBFInterpolator): a trained surrogate reproduces its training data at the training points; a surrogate rebuilt from its file gives the same predictions. The history and fitting-state models are tied to the code on every run (same histories through the driver: outcome and every slot of every load; normalize flag of kernelKwargs after every call, per quantity kernel present / fitted normalised / node count for the original and the rebuilt surrogate); what `solve` does to a model and what SciPy's interpolator computes are not modelled (a solve is `any new state`, a kernel is `what its constructor received`). Continuing a run after a reload is outside the statement and recorded as a finding (histories do continue loaded models: whatever state they reach must come back from the next save/load). This kawin version has no recording interval, so "recording options" are on / off / switched off / data removed.',
     'technique': 'Lean 4 proof over extracted tables (decide) + structural induction; model/implementation differential correspondence; direct save->load->compare oracle on real runs',
     'design_ref': 'DESIGN.md section 6, C20',
 }
 LEAN_MODULES = ['KawinV.Props.C20']
 MONITORED = [
-    'a trained surrogate reproduces its training data at the training points (SciPy RBFInterpolator; oracle, rtol 1e-6)',
-    'a surrogate rebuilt from its saved JSON file gives bit-identical predictions (oracle at random query points)',
+    'a trained surrogate reproduces its training data at the training points (SciPy RBFInterpolator; oracle, rtol 1e-6; closely spaced grids 1e-5..1e-2 in x, 0.1..50 K, 1..1000 J/mol, linear and log fits, single axes: the unchanged code is within 2e-10)',
+    'a surrogate rebuilt from its saved JSON file gives bit-identical predictions (oracle at random query points; all training orders of 2-3 quantities with 1 and 2 input axes, rtol 1e-8 at and between the training points; Q predicted as by a surrogate trained on Q alone)',
     'StrengthModel.save/load and PopulationBalanceModel.saveRecordedPSD/loadRecordedPSD reproduce their arrays (oracle; same npz layer)',
 ]
 ASSUMPTIONS = [
+    'histories: kawin has one file format (np.savez_compressed); "the same file" is tested through both spellings of its name (with / without .npz); loads go into freshly constructed models of the same configuration; PSD recording is off in the precipitation histories (known finding psd-recording-not-saved)',
+    'training orders: every training leaves at least one non-single input axis (a one-point training stores the data, raises and keeps the old kernel: excluded by the visible hypothesis of rebuild_equals_original); original and rebuilt surrogate are constructed with the same kernel settings (the file does not store them)',
     'the model has been solved at least once (an unsolved precipitation model holds eqAspectRatio = None and cannot be loaded back)',
     'phase names of one model are distinct',
     'finite array contents; array dtype (finalTime may be saved as int64) is not modelled, values are compared as doubles',
@@ -1970,19 +1981,26 @@ def run_history(res, ctx, tmp, kind, cfg, ops, lines=None, pending=None):
     live, caps = [m0], [StepCap(m0)]
     store = {}                                                   # canonical file name -> snapshots of every save to it, in order
     mops, loads = [], []
+    idle = {}                                                    # live index -> snapshot at load time, for loaded models not touched since
     mname = 'precipitation' if kind == 'P' else 'diffusion'
     base = dict(history=True, kind=kind, cfg=dict(cfg), ops=[list(o) for o in ops])
     nloads_checked = 0
     for k, op in enumerate(ops):
         if op[0] == 'solve':
             _, i, n = op
+            idle.pop(i, None)
             solve(caps[i], n)
             states.append(slots_of(live[i], names, getter)); mops.append('S %d %d' % (i, len(states) - 1))
             res.count('history-op:solve-%s' % ('original' if i == 0 else 'loaded-model'))
         elif op[0] == 'save':
             _, i, f = op
+            before = snap(live[i])
             live[i].save(os.path.join(sub, f))
             store.setdefault(canon_name(f), []).append(snap(live[i]))
+            changed = [n for n in fields if not same(before[n], store[canon_name(f)][-1][n])]
+            if changed:
+                res.violate('saveload-history:save-changes-the-model', '%s model: save() changed slot(s) %s of the model it saved' % (mname, changed[:6]),
+                            dict(base, at_op=k, file=f, model=mname), observed={n: brief(store[canon_name(f)][-1][n]) for n in changed[:4]}, required={n: brief(before[n]) for n in changed[:4]})
             mops.append('W %d %s' % (i, f))
             res.count('history-op:save-%s' % ('first-use-of-name' if len(store[canon_name(f)]) == 1 else 'name-reused'))
         else:
@@ -2002,6 +2020,7 @@ def run_history(res, ctx, tmp, kind, cfg, ops, lines=None, pending=None):
             want = store[canon_name(f)][-1]
             loads.append(dict(desc=desc, outcome=None, after=got))
             live.append(fresh); caps.append(StepCap(fresh))
+            idle[len(live) - 1] = got
             nloads_checked += 1
             nth = len(store[canon_name(f)])
             res.count('history-op:load-after-%s' % ('one-save' if nth == 1 else 'several-saves-to-the-name'))
@@ -2025,6 +2044,14 @@ def run_history(res, ctx, tmp, kind, cfg, ops, lines=None, pending=None):
                 res.violate('saveload-history:%s-differs' % slot_template(bad[0]),
                             '%s model: after load(%r) slot(s) %s differ from the model as it was at the last save() to that name' % (mname, f, bad[:6]), desc,
                             observed={n: brief(got[n]) for n in bad[:4]}, required={n: brief(want[n]) for n in bad[:4]})
+    for j, sn in idle.items():                  # a model that was loaded and then left alone is still what was loaded, whatever was solved / saved / loaded afterwards
+        now = snap(live[j])
+        changed = [n for n in fields if not same(sn[n], now[n])]
+        res.count('history-idle-loaded-model-rechecked')
+        if changed:
+            res.violate('saveload-history:loaded-model-changed-by-later-calls',
+                        '%s model: live model no. %d was loaded and not touched afterwards, yet slot(s) %s changed while other models were solved / saved / loaded' % (mname, j, changed[:6]),
+                        dict(base, live_model=j, model=mname), observed={n: brief(now[n]) for n in changed[:4]}, required={n: brief(sn[n]) for n in changed[:4]})
     res.sample(dict(model=mname, history=[list(o) for o in ops], loads_checked=nloads_checked), cap=4)
     if lines is not None:
         lines.append('sl.hist %s %d %s %d %s 0 %d %s' % (kind, len(phases), ' '.join(phases), len(states), ' '.join(enc_slots(s) for s in states), len(mops), ' '.join(mops)))
@@ -2589,7 +2616,7 @@ def corr(ctx, scale=1, oracle_only=False, only=None):
     res.monitored = list(MONITORED)
     res.rule = ('real Al-Zr KWN runs (random x0, T, class count, adaptive on/off, Euler/RK4, PSD recording on/off; thorough: + Ni-Cr-Al, 5-precipitate Al-Mg-Si) saved between solve calls and after completion; '
                 'random SinglePhaseModel runs (1-3 solutes, 5-40 nodes, 1-3 solve calls, recording on/off/switched off/switched on/removed; thorough: + real Ni-Cr(-Al) thermodynamics, HomogenizationModel); '
-                'untrained getters on random points of the real Al-Zr / Ni-Cr-Al thermodynamics (phases by default or named); every getter of both surrogate classes on a recording mock thermodynamics in every call form (default, all keywords, each keyword alone, positional, positional extras) + random calls, non-default value for every argument; untrained and partially trained MulticomponentSurrogate of Al-Mg-Si (5 precipitate phases) for every phase; tiny trained surrogates (linear/log, broadcast or point lists); random arrays through JSON. '
+                'untrained getters on random points of the real Al-Zr / Ni-Cr-Al thermodynamics (phases by default or named); every getter of both surrogate classes on a recording mock thermodynamics in every call form (default, all keywords, each keyword alone, positional, positional extras) + random calls, non-default value for every argument; untrained and partially trained MulticomponentSurrogate of Al-Mg-Si (5 precipitate phases) for every phase; tiny trained surrogates (linear/log, broadcast or point lists); random arrays through JSON; save/load histories: 10 diffusion + 2 Al-Zr precipitation histories per quick run (solve, save(name), load(name) prefix; 3-12 random solve/save/load calls on the original and on loaded models, 2-3 names reused, both spellings; solve, save, load of a name loaded before as suffix); training grids: 9 binary + 3 ternary specs (first ones forced: linear fit dx 5e-4 single T; dx 1e-4 x dT 10 grid; log fit dx 1e-5; point list dx 3e-5 dT 0.5), all quantities; training orders: 4 binary + 2 ternary specs x (all permutations + all ordered pairs, getter calls in between) (first ones forced: default kernel settings, 2-axis diffusivity with 1-axis driving force). '
                 'non-trivial = populated size distribution / evolved profile / a getter evaluated; distinct = configuration + save point')
     rng = ctx.rng
     import time as _t0
